@@ -14,8 +14,31 @@ class C03(CacheProp):
             "op, used <= MaxCost after every admission of a new key; non-trivial = an Add evicted or rejected")
 
     def gen(self, rng, n, ctx):
-        return policygen.gen_policy_cases(rng, n // 2) + \
-            cachegen.gen_cases(rng, n // 2, ctx, ["basic", "internal", "roomy", "tinybuf", "ttl"])
+        cases = policygen.gen_policy_cases(rng, n // 2) + \
+            cachegen.gen_cases(rng, n // 2 - n // 30, ctx, ["basic", "internal", "roomy", "tinybuf", "ttl"])
+        # accounted cost exactly 0 (IgnoreInternalCost, Config.Cost returns 0) on keys that expire, are deleted or are
+        # evicted and are then written again with a positive cost: the zero must not be mistaken for "not accounted"
+        pd = ctx.probe_data or {"item_size": 56, "start": cachegen.START_DEFAULT}
+        g = cachegen.Gen(rng, pd)
+        for j in range(n // 30):
+            bdur = rng.choice([1, 5])
+            hs = [cachegen.mix(600 + 7 * j + i) for i in range(4)]
+            order = [2, 5, 8, 11]
+            rng.shuffle(order)      # distinct, well separated frequency estimates: no ties for the victim choice
+            ops = [["est", h, e] for h, e in zip(hs, order)] + [["estcheck", h] for h in hs]
+            v = 100
+            for i, h in enumerate(hs):
+                v += 1
+                ops.append(["set", h, 10 * (i + 1), v, 0 if i < 2 else rng.randrange(20, 50), rng.choice([10 ** 9, 0]) if i < 2 else 0])
+            ops += [["tok"]] * 4 + [["dump"], ["rem"], ["tick", rng.choice([3, 12]) * bdur * 10 ** 9], ["sweep"], ["dump"], ["rem"]]
+            if rng.random() < 0.5:
+                ops += [["del", hs[1], 20], ["tok"], ["dump"], ["rem"]]
+            for i, h in enumerate(hs[:2]):
+                v += 1
+                ops.append(["set", h, 10 * (i + 1), v, rng.randrange(40, 70), 0])
+            ops += [["tok"]] * 3 + [["dump"], ["rem"], ["wait"], ["dump"], ["rem"], ["get", hs[0], 10], ["get", hs[1], 20]]
+            cases.append(cachegen.Case("z%d" % j, "cache", g.header(100, 8, True, True, 0, bdur), ops, tags=["profile:zerocost"]))
+        return cases
 
     def canon(self, case, i, line):
         if case.comp in ("policy", "policybig"):
